@@ -190,4 +190,55 @@ theorem subtypes_spec {norm : α → α} {fs : List (FileInfo α)} {t : Tree α}
       simp only [subtypes, h1, List.mem_filterMap]
       exact ⟨e, h3, by rw [i3, hex]; rfl⟩
 
+theorem nodup_filterMap_map {β γ δ : Type} (f : β → Option γ) (g : γ → δ) :
+    ∀ (l : List β), l.Nodup → (∀ x ∈ l, ∀ y ∈ l, ∀ a b, f x = some a → f y = some b → g a = g b → x = y) →
+      ((l.filterMap f).map g).Nodup := by
+  intro l
+  induction l with
+  | nil => intro _ _; exact List.nodup_nil
+  | cons x rest ih =>
+    intro hnd hinj
+    rw [List.nodup_cons] at hnd
+    have hrest := ih hnd.2 (fun a ha b hb => hinj a (List.mem_cons_of_mem _ ha) b (List.mem_cons_of_mem _ hb))
+    simp only [List.filterMap_cons]
+    cases hx : f x with
+    | none => exact hrest
+    | some a =>
+      simp only [List.map_cons, List.nodup_cons]
+      refine ⟨?_, hrest⟩
+      intro hmem
+      obtain ⟨b, hb, hgb⟩ := List.mem_map.mp hmem
+      obtain ⟨y, hy, hfy⟩ := List.mem_filterMap.mp hb
+      have := hinj x List.mem_cons_self y (List.mem_cons_of_mem _ hy) a b hx hfy hgb.symm
+      exact hnd.1 (this ▸ hy)
+
+/-- a class is listed once among the subtypes -/
+theorem subtypes_nodup {norm : α → α} {fs : List (FileInfo α)} {t : Tree α}
+    (R : Represents norm fs t) (c : α) : ((subtypes norm fs t c).map norm).Nodup := by
+  unfold subtypes
+  cases hm : t.map (norm c) with
+  | none => exact List.nodup_nil
+  | some n =>
+    apply nodup_filterMap_map _ _ _ (R.tree.chn n)
+    intro x _ y _ a b hx hy hab
+    have ha : t.ids[x]? = some a := by
+      simp only [Tree.item] at hx
+      split at hx
+      · split at hx
+        · cases hx; assumption
+        · cases hx
+      · cases hx
+    have hb : t.ids[y]? = some b := by
+      simp only [Tree.item] at hy
+      split at hy
+      · split at hy
+        · cases hy; assumption
+        · cases hy
+      · cases hy
+    have h1 := R.tree.mall x a ha
+    have h2 := R.tree.mall y b hb
+    rw [hab] at h1
+    rw [h1] at h2
+    cases h2; rfl
+
 end Gold.Tree
